@@ -103,6 +103,28 @@ pub fn run(ctx: &Ctx) {
         let mut toks: Vec<&str> = idx.iter().map(|k| w[*k]).collect(); toks[p] = b;
         check_phrase(ctx, "S4-unknown-token", i, &toks.join(" "));
     });
+    // S4b: look-alikes of the word that is actually in place (compatibility characters that NFKD / case folding would map
+    // onto it): the phrase would be valid after folding, but the token is not a word of the list
+    fn lookalikes(w: &str) -> Vec<String> {
+        let first = w.chars().next().unwrap(); let rest = &w[1..]; let mut v = vec![
+            format!("{}{rest}", char::from_u32(0xff41 + (first as u32 - 'a' as u32)).unwrap()),                   // full-width first letter
+            w.chars().map(|c| char::from_u32(0xff41 + (c as u32 - 'a' as u32)).unwrap()).collect::<String>(),      // all full-width
+            format!("{}{rest}", char::from_u32(0x1d41a + (first as u32 - 'a' as u32)).unwrap()),                  // mathematical bold
+            format!("{}{rest}", first.to_ascii_uppercase()), w.to_ascii_uppercase(),                              // case
+            format!("{}{rest}", char::from_u32(0x24d0 + (first as u32 - 'a' as u32)).unwrap())];                  // circled letter
+        if let Some(i) = w.find('s') { v.push(format!("{}\u{17f}{}", &w[..i], &w[i + 1..])); }                     // long s
+        if let Some(i) = w.find("fi") { v.push(format!("{}\u{fb01}{}", &w[..i], &w[i + 2..])); }                   // fi ligature
+        if let Some(i) = w.find('l') { v.push(format!("{}\u{2113}{}", &w[..i], &w[i + 1..])); }                    // script small l
+        v.push(format!("{w}\u{ad}")); v.push(format!("{w}\u{200d}")); v.push(format!("\u{feff}{w}"));            // soft hyphen, ZWJ, BOM glued to the word
+        v
+    }
+    let mut s4b: Vec<(usize, usize, usize)> = Vec::new(); for n in lens { for p in 0..n { for k in 0..12 { s4b.push((n, p, k)); } } }
+    ctx.sweep("S4b-lookalike-of-the-word-in-place", "at every position of every valid length, the word in place replaced by one of up to 12 look-alikes (full-width, mathematical, circled, upper case, long s, fi ligature, script l, glued soft hyphen / ZWJ / BOM): must be rejected", s4b.len() as u64, |i| {
+        let (n, p, k) = s4b[i as usize]; let idx = valid_indices(ctx.seed, n, 0, None);
+        let la = lookalikes(w[idx[p]]); if k >= la.len() { return; }
+        let toks: Vec<String> = idx.iter().enumerate().map(|(j, x)| if j == p { la[k].clone() } else { w[*x].to_string() }).collect();
+        check_phrase(ctx, "S4b-lookalike-of-the-word-in-place", i, &toks.join(" "));
+    });
     // S5: whitespace layout
     let seps = [" ", "  ", "\t", "\n", "\r\n", " \t ", "\u{a0}", "\u{2003}", "\u{3000}", "\u{b}", "\u{c}", "\u{85}", "\u{200b}", ""];
     let edges = ["", " ", "\n", "\t \r\n", "\u{3000}"];
